@@ -214,10 +214,125 @@ pub enum F {
     Custom,
 }
 
+/// a value of any supported type (used by C02); floats are stored as bits of a finite number
+#[derive(Clone, Debug, PartialEq, Eq, Hash, Serialize, Deserialize)]
+pub enum VS {
+    I8(i8),
+    I16(i16),
+    I32(i32),
+    I64(i64),
+    U8(u8),
+    U16(u16),
+    U32(u32),
+    U64(u64),
+    F32(u32),
+    F64(u64),
+    Str(String),
+    Char(char),
+    Bytes(Vec<u8>),
+    Bool(bool),
+    /// typed NULL: index into the list of variants
+    Null(u8),
+    Json(String),
+    Date(i32),
+    DateTime(i64),
+    TimeDate(i32),
+    Decimal(i64, u8),
+    BigDecimal(i64, i8),
+    Uuid(u64, u64),
+}
+
+impl VS {
+    pub fn value(&self) -> Value {
+        match self {
+            VS::I8(v) => (*v).into(),
+            VS::I16(v) => (*v).into(),
+            VS::I32(v) => (*v).into(),
+            VS::I64(v) => (*v).into(),
+            VS::U8(v) => (*v).into(),
+            VS::U16(v) => (*v).into(),
+            VS::U32(v) => (*v).into(),
+            VS::U64(v) => (*v).into(),
+            VS::F32(b) => {
+                let f = f32::from_bits(*b);
+                (if f.is_finite() { f } else { 1.5f32 }).into()
+            }
+            VS::F64(b) => {
+                let f = f64::from_bits(*b);
+                (if f.is_finite() { f } else { 2.5f64 }).into()
+            }
+            VS::Str(s) => s.as_str().into(),
+            VS::Char(c) => (*c).into(),
+            VS::Bytes(b) => b.clone().into(),
+            VS::Bool(b) => (*b).into(),
+            VS::Null(k) => match k % 12 {
+                0 => Value::Int(None),
+                1 => Value::String(None),
+                2 => Value::Bool(None),
+                3 => Value::Double(None),
+                4 => Value::Bytes(None),
+                5 => Value::Char(None),
+                6 => Value::Json(None),
+                7 => Value::ChronoDate(None),
+                8 => Value::Decimal(None),
+                9 => Value::Uuid(None),
+                10 => Value::BigUnsigned(None),
+                _ => Value::TimeDate(None),
+            },
+            VS::Json(s) => serde_json::json!({"k": s, "n": [1, 2.5, null]}).into(),
+            VS::Date(d) => chrono::NaiveDate::from_num_days_from_ce_opt(700_000 + (*d % 40_000)).unwrap_or_default().into(),
+            VS::DateTime(t) => chrono::DateTime::from_timestamp(*t % 4_000_000_000, 0).unwrap_or_default().naive_utc().into(),
+            VS::TimeDate(d) => time::Date::from_julian_day(2_440_000 + (*d % 30_000).abs()).unwrap_or(time::Date::MIN).into(),
+            VS::Decimal(m, s) => rust_decimal::Decimal::new(*m, (*s % 20) as u32).into(),
+            VS::BigDecimal(m, s) => bigdecimal::BigDecimal::new((*m).into(), (*s % 20) as i64).into(),
+            VS::Uuid(a, b) => uuid::Uuid::from_u64_pair(*a, *b).into(),
+        }
+    }
+}
+
+pub fn vs_strategy() -> impl Strategy<Value = VS> {
+    prop_oneof![
+        any::<i8>().prop_map(VS::I8),
+        any::<i16>().prop_map(VS::I16),
+        any::<i32>().prop_map(VS::I32),
+        any::<i64>().prop_map(VS::I64),
+        any::<u8>().prop_map(VS::U8),
+        any::<u16>().prop_map(VS::U16),
+        any::<u32>().prop_map(VS::U32),
+        any::<u64>().prop_map(VS::U64),
+        prop_oneof![any::<u32>(), (-1000i32..1000).prop_map(|x| (x as f32).to_bits()), Just(1e20f32.to_bits()), Just(1e-20f32.to_bits())].prop_map(VS::F32),
+        prop_oneof![any::<u64>(), (-1000i64..1000).prop_map(|x| (x as f64).to_bits()), Just(1e300f64.to_bits()), Just(1e-300f64.to_bits())].prop_map(VS::F64),
+        crate::util::nasty_string_nul(12).prop_map(VS::Str),
+        crate::util::nasty_string(5).prop_map(VS::Str),
+        prop_oneof![crate::util::nasty_char(), any::<char>()].prop_map(VS::Char),
+        proptest::collection::vec(any::<u8>(), 0..8).prop_map(VS::Bytes),
+        any::<bool>().prop_map(VS::Bool),
+        (0u8..12).prop_map(VS::Null),
+        crate::util::nasty_string(6).prop_map(VS::Json),
+        any::<i32>().prop_map(|d| VS::Date(d.rem_euclid(40_000))),
+        any::<i64>().prop_map(|t| VS::DateTime(t.rem_euclid(4_000_000_000))),
+        any::<i32>().prop_map(VS::TimeDate),
+        (any::<i64>(), 0u8..20).prop_map(|(m, s)| VS::Decimal(m, s)),
+        (any::<i64>(), 0i8..20).prop_map(|(m, s)| VS::BigDecimal(m, s)),
+        (any::<u64>(), any::<u64>()).prop_map(|(a, b)| VS::Uuid(a, b)),
+    ]
+}
+
 #[derive(Clone, Debug, PartialEq, Eq, Hash, Serialize, Deserialize)]
 pub enum E {
+    /// a bound value of any supported type (C02)
+    V(VS),
     Col(u8),
     TCol(u8),
+    /// qualified column: (qualifier index into stmt_spec::QUALS, column index into stmt_spec::QCOLS)
+    QCol(u8, u8),
+    /// aggregate: 0 COUNT, 1 SUM, 2 MAX, 3 MIN, 4 AVG; distinct only for COUNT
+    Agg(u8, Box<E>, bool),
+    CountStar,
+    /// `*`
+    Star,
+    /// reference to a select-item alias (stmt_spec::ITEM_ALIASES)
+    AliasRef(u8),
     Int(i64),
     Text(String),
     Bool(bool),
@@ -269,6 +384,22 @@ impl E {
         match self {
             E::Col(i) => Expr::col(a(COLS[*i as usize % 4])).into(),
             E::TCol(i) => Expr::col((a("tt"), a(COLS[*i as usize % 4]))).into(),
+            E::QCol(t, c) => Expr::col((a(crate::stmt_spec::QUALS[*t as usize % 8]), a(crate::stmt_spec::QCOLS[*c as usize % 5]))).into(),
+            E::Agg(f, e, distinct) => {
+                let x = e.build(d);
+                match (f % 5, distinct) {
+                    (0, true) => Func::count_distinct(x).into(),
+                    (0, false) => Func::count(x).into(),
+                    (1, _) => Func::sum(x).into(),
+                    (2, _) => Func::max(x).into(),
+                    (3, _) => Func::min(x).into(),
+                    _ => Func::avg(x).into(),
+                }
+            }
+            E::CountStar => Func::count(Expr::col(Asterisk)).into(),
+            E::Star => Expr::col(Asterisk).into(),
+            E::AliasRef(i) => Expr::col(a(crate::stmt_spec::ITEM_ALIASES[*i as usize % 4])).into(),
+            E::V(v) => SimpleExpr::Value(v.value()),
             E::Int(i) => Expr::val(*i).into(),
             E::Text(s) => Expr::val(s.as_str()).into(),
             E::Bool(b) => Expr::val(*b).into(),
@@ -369,6 +500,12 @@ impl E {
         match self {
             E::Col(i) => PT::Id(vec![COLS[*i as usize % 4].into()]),
             E::TCol(i) => PT::Id(vec!["tt".into(), COLS[*i as usize % 4].into()]),
+            E::QCol(t, c) => PT::Id(vec![crate::stmt_spec::QUALS[*t as usize % 8].into(), crate::stmt_spec::QCOLS[*c as usize % 5].into()]),
+            E::Agg(f, e, distinct) => PT::Func(["COUNT", "SUM", "MAX", "MIN", "AVG"][(*f % 5) as usize].into(), vec![e.expect(d, params)], vec![*distinct && f % 5 == 0]),
+            E::CountStar => PT::Func("COUNT".into(), vec![PT::Star(vec![])], vec![false]),
+            E::Star => PT::Star(vec![]),
+            E::AliasRef(i) => PT::Id(vec![crate::stmt_spec::ITEM_ALIASES[*i as usize % 4].into()]),
+            E::V(_) => PT::Param(None),
             E::Int(_) | E::Text(_) | E::Bool(_) if params => PT::Param(None),
             E::Int(i) | E::Const(i) => PT::Num(i.to_string()),
             E::Text(s) => PT::Str(s.clone()),
@@ -450,6 +587,12 @@ impl E {
         Some(match self {
             E::Col(i) => q(COLS[*i as usize % 4]),
             E::TCol(i) => format!("{}.{}", q("tt"), q(COLS[*i as usize % 4])),
+            E::QCol(t, c) => format!("{}.{}", q(crate::stmt_spec::QUALS[*t as usize % 8]), q(crate::stmt_spec::QCOLS[*c as usize % 5])),
+            E::Agg(f, e, distinct) => format!("{}({}{})", ["count", "sum", "max", "min", "avg"][(*f % 5) as usize], if *distinct && f % 5 == 0 { "DISTINCT " } else { "" }, e.ref_sqlite()?),
+            E::CountStar => "count(*)".into(),
+            E::Star => "*".into(),
+            E::AliasRef(i) => q(crate::stmt_spec::ITEM_ALIASES[*i as usize % 4]),
+            E::V(_) => return None,
             E::Int(i) | E::Const(i) => format!("({i})"),
             E::Text(s) => lex::enc_str(Dialect::Sqlite, s),
             E::Bool(b) | E::ConstBool(b) => if *b { "TRUE" } else { "FALSE" }.into(),
@@ -538,6 +681,7 @@ impl E {
         match self {
             E::Not(e) => E::Not(Box::new(g(e))),
             E::Cast(e, t) => E::Cast(Box::new(g(e)), t.clone()),
+            E::Agg(f, e, dd) => E::Agg(*f, Box::new(g(e)), *dd),
             E::Bin(l, op, r) => {
                 let l2 = g(l);
                 let r2 = g(r);
@@ -583,7 +727,7 @@ impl E {
 
     pub fn children(&self) -> Vec<&E> {
         match self {
-            E::Not(e) | E::Cast(e, _) => vec![e],
+            E::Not(e) | E::Cast(e, _) | E::Agg(_, e, _) => vec![e],
             E::Bin(l, _, r) => vec![l, r],
             E::Between { x, lo, hi, .. } => vec![x, lo, hi],
             E::LikePat { x, .. } | E::InSub { x, .. } => vec![x],
@@ -610,7 +754,7 @@ impl E {
             E::LikePat { esc, .. } => if esc.is_some() { "LIKE-ESCAPE" } else { "LIKE-PAT" }.into(),
             E::In { not, .. } => if *not { "NOT IN" } else { "IN" }.into(),
             E::InSub { .. } => "IN-SUB".into(),
-            E::Func(..) => "func".into(),
+            E::Func(..) | E::Agg(..) | E::CountStar => "func".into(),
             E::Cast(..) => "CAST".into(),
             E::Case(..) => "CASE".into(),
             E::TupleCmp(..) => "tuple-cmp".into(),
